@@ -41,7 +41,7 @@ META = {
 
 INF = math.inf
 KINDS = ["add", "append", "extend", "iadd_list", "iadd_one"]
-WIDE = [-INF, -1.0, -0.0, 0.0, 0.5, 1.0, 1.0000000000000002, 1e300, INF]
+WIDE = [-INF, -1.0, -0.0, 0.0, 0.5, 1.0, 1.0000000000000002, 1e300, INF, 2 ** 60, 2 ** 60 + 1, -(2 ** 60 + 1), 2 ** 53 + 1]   # incl. exact ints beyond 2**53
 
 
 # ----------------------------------------------------------------------------
@@ -73,7 +73,7 @@ class Hist:
 
     @staticmethod
     def from_json(d):
-        return Hist(d["con"], d["dirs"], [([float(v) for v in o], float(c)) for o, c in d["pool"]],
+        return Hist(d["con"], d["dirs"], [([plat.parse_num(v) for v in o], float(c)) for o, c in d["pool"]],
                     [(KINDS.index(k), s) for k, s in d["ops"]])
 
     def token(self):
